@@ -11,6 +11,7 @@ ALL = ["C%02d" % i for i in range(1, 37)]
 ENGINES = [
     {"name": "E1-finite-family", "path": "vmc/crates/vmc/src/checks/", "kind_free_text": "exhaustive enumeration of a finite, size-bounded generated family through the real crates (one file per property)"},
     {"name": "E2-lockstep-product", "path": "vmc/crates/vmc/src/checks/c01.rs", "kind_free_text": "lock-step explicit-state BFS over the product of N machines (real simulator engines, reference SV interpreter, netlist evaluator) over all input letters with path re-execution; all short sequences without dedup"},
+    {"name": "E5-schedule", "path": "vmc/crates/vmc/src/checks/c32.rs", "kind_free_text": "exhaustive enumeration of schedules of the real program: dispatch orders x worker pop schedules (hook-owned), process interleavings at system-call granularity (ptrace-owned)"},
     {"name": "E6-differential", "path": "vmc/crates/vmc/src/checks/c17.rs, c18.rs, c36.rs", "kind_free_text": "exhaustive enumeration of a finite input space through k implementations / a reference model with comparison of observables"},
     {"name": "E3-history-bfs", "path": "vmc/crates/vmc/src/checks/c29.rs, c04.rs", "kind_free_text": "explicit-state BFS over operation histories on the real implementation (library or CLI), state dedup by canonical on-disk snapshot, reference model / fresh-cache twin as oracle"},
     {"name": "E4-crash-damage", "path": "vmc/crates/vmc/src/checks/c05.rs", "kind_free_text": "every mutating system call of the real binary (strace) x SIGKILL before it, every byte/truncation/deletion of every .build file; recovery compared with a clean build"},
@@ -51,6 +52,27 @@ add("C18", "exploration",
     "One generated module per (wa, wb, wy, sa, sb) with 67 outputs (10 unary, 24 binary operators, 33 two-operator compositions where context width/sign propagates) at widths from {1,2,3,4,8,31,32,33,63,64,65,127,128,129,200,256,300}; inputs: all 2-state values when wa+wb <= 8, all 4-state values when <= 4/6, else all pairs of the corner alphabet plus a shift-amount alphabet; run on interpreter and Cranelift JIT x 2-/4-state (quick, 170 modules) or all 10 Config::all() engines incl. the cc backend (thorough, 966 modules). Every Simulator::get is compared with R1 under the IEEE context rule, and, where it agrees, with the compile-time evaluator (differences confirmed through the real analyzer).",
     "Trusted base: R1. 2-state engines: results whose IEEE value contains x are counted, not compared. Known findings are listed per (operator, engine, width class, signedness, difference class); the long list reflects nine analyzer root causes plus JIT/cc wide-width and 4-state defects (DESIGN.md section 0.2).",
     engine="E6-differential")
+add("C19", "model_checking",
+    "lock-step explicit-state exploration of the full reachable product state space of (independent gate-netlist evaluator on the real synthesizer's output, real RTL simulator) for every member of a finite design family x cell libraries x RAM-inference settings; all short input sequences without state merging",
+    "Every design of a generated synthesizable family (151 template classes: every operator x width pairs x signedness x result width, statements, functions, structures, 48 gate-fusion shapes, 17 sequential templates x clock/reset kinds, counter/prefix/balance pass shapes, wide arithmetic, 16 memory templates x sizes straddling the RAM threshold; 484 designs quick / 3035 thorough) is synthesized by the real veryl_synthesizer under 4 cell libraries x 4 RamConfig settings; each distinct netlist is evaluated by R3 (truth tables per CellKind, FFs with edge/reset kind/polarity/value, RAM blocks) in lock-step with the real veryl_simulator: all input sequences up to a small length without dedup, then a walk of the full reachable product space over all input letters with outputs compared before and after every clock edge; FF/RAM clock and reset attributes are checked statically against the port declarations.",
+    "Trusted base: R3 (vmc/crates/vmc/src/r3_netlist.rs, written from the CellKind documentation). 2-state inputs; division by zero and out-of-range indices excluded by construction; 61 wide designs use corner alphabets (labelled). Known findings mask further regressions inside the same template class.",
+    engine="E2-lockstep-product")
+add("C20", "exploration",
+    "exhaustive enumeration of every netlist of the C19 design x library x RAM-setting matrix with independent structural checks and recomputation of area and timing reports",
+    "For every netlist the real synthesizer produces for the C19 family (3108 quick / 48512 thorough): single driver per used net, driver bookkeeping, in-range nets, arity, RAM port shapes, acyclic combinational part; area recomputed from the library (cells + FFs + RAM bits) against every field of AreaReport; critical-path depth and delay recomputed by memoised DFS over all endpoints; the reported critical path starts at a boundary and its steps are consecutive in the netlist.",
+    "Trusted base: R3's structure walk and the library tables read through the public API. Relative tolerance 1e-9 on areas.")
+add("C24", "exploration",
+    "exhaustive enumeration of all processing orders (n!) of all dependency-closed projects of up to n files from a fixed pool, built by the real CLI; outputs compared across orders",
+    "Projects = all dependency-closed subsets (n <= 3 quick / 4 thorough) of a 16-item pool (packages, interface, generic module and package with several users, importers, $sv users, cross-file types, modules with warnings); each is built under ALL n! processing orders, imposed both by permuting `sources` roots and by file-name prefixes, through the real `veryl build` / `veryl check`; every .sv, .sv.map, exit code and diagnostic multiset must be independent of the order (each order confirmed in veryl's own processing log). Repeated fresh-process builds of the same project are compared byte for byte (reported as repeated_runs, not exhaustive: hash seeds cannot be enumerated).",
+    "Trusted base: the order-imposition mechanism (confirmed per run from the log). The repeated-run clause is sampling by nature and labelled so.")
+add("C25", "exploration",
+    "exhaustive enumeration of all typed DAG project shapes up to n files x target/sourcemap/filelist settings and collision layouts, built by the real CLI, against an oracle derived from the abstract project",
+    "All labelled typed DAGs (package/interface/module nodes; import, scoped reference, instance, modport edges) on <= 3 (quick) / 4 (thorough) files x spellings, plus multi-declaration files, tests/examples/path dependency/alias/embed/empty/comment-only extras, 6 collision layouts, x 27 combinations of target {source, directory, bundle} x sourcemap_target x filelist_type go through the real `veryl build` and Metadata::paths. Oracle: no duplicate filelist line; listed = emitted; for every reference edge u->v, v precedes u; every emitted source appears in exactly one output; all dst/map paths pairwise distinct.",
+    "Trusted base: the abstract project generator; outputs are attributed to sources by a marker comment veryl copies into its output.")
+add("C27", "exploration",
+    "exhaustive enumeration of a (setup x single damage) state matrix; check mode and write mode run on twins of the same snapshot with the real CLI and are compared",
+    "States = {target x sourcemap settings, exclude_std on/off} x {edit a source, add a source, delete/hand-edit/truncate an output (root, dependency, $std, bundle), delete/edit a source map, delete/edit the filelist, unformatted sources}: 135 build + 45 fmt states quick, 1130 + 141 thorough. For each state twin A runs `veryl build --check` / `veryl fmt --check` and twin B runs the write mode from the same snapshot; check mode exits 0 iff the write mode changes no emitted file (.sv, .sv.map, bundle) / no source file.",
+    "Trusted base: the tree diff. The filelist is compared too but reported separately (the statement does not name it).")
 add("C28", "exploration",
     "exhaustive enumeration of all Doc trees up to N nodes x render options on the real renderer, invariant oracle",
     "All veryl_pretty Doc trees with <= 5 (quick) / 6 (thorough) nodes over a 23-leaf alphabet and a deeper reduced alphabet up to 7 / 8 nodes, x up to 36 render options, are rendered by the real render_with_anchors; checked: every marker once and in order, group modes consistent, IfBreak text iff its group broke, every RenderedAnchor is at the (line, column) where its text really is, no trailing blanks when stripping, groups that fit are not broken.",
@@ -61,6 +83,15 @@ add("C29", "model_checking",
     "Trusted base: the 60-line reference map in c29.rs and the canonical state key (disk snapshot + handle view). One handle at a time.",
     engine="E3-history-bfs")
 
+add("C31", "exploration",
+    "exhaustive enumeration of release sets x requirements x lock states x dependency-graph shapes on harness-built local git repositories through the real Metadata/Lockfile code, against a reference resolver",
+    "30 local git repositories (file:// URLs) provide all non-empty subsets of {0.1.0,0.1.1,0.2.0,1.0.0}; x 8 requirement forms x lock state (none / locked to each release, reached through a real resolve-save-change-update history) x graph shapes {direct, two requirements on one project, path dependency, diamond, chain through a git intermediate, properties}: the real veryl_metadata resolution runs in worker subprocesses with private HOME/XDG cache and is compared with a reference resolver (locked release if it still matches, else the highest matching one), plus: distinct lock names, identical results of repeated resolutions, save/load round trip, `update` idempotent and reporting every change, --force equal to a fresh resolution. 1140 cases quick / ~6900 thorough.",
+    "Trusted base: the reference semver/resolver model (vmc/crates/refmodels/src/semver_ref.rs), git. Remote URLs, prerelease versions and lockfile v0 migration are not covered.")
+add("C32", "model_checking",
+    "exhaustive enumeration of dispatch orders x pop schedules (which worker takes the i-th test, owned by a cfg(veryl_verif) hook) x worker counts x seeds on the real `veryl test`; exhaustive small-domain enumeration of $tb random ranges",
+    "A native-test project (shared DUT, $tb::random handles with equal and different names and types, $display, a deliberately failing $assert, a $comp instance exposing its instance seed) is run through the real `veryl test` for seeds {0,1,2^64-1} x workers {1,2,3} x ALL n! dispatch orders (imposed through .build/test_timings) x ALL w^n pop schedules (imposed by the hook and validated against the hook's pop log), plus timing-file shapes, text report mode and the default cc backend; every test's status, message and captured output must equal the 1-worker run with the same seed. RNG: get/get_range for widths 1..4(6) x signedness x ALL (min,max) pairs x first 64 draws x seeds x handle names at library level, boundary widths {31,32,33,63,64} with extreme bounds, and through generated testbenches at CLI level: every draw within bounds, identical streams for equal (seed, handle).",
+    "Trusted base: the pop hook (add-only, cfg(veryl_verif), repo commit 878d807). After a pop, test bodies run on real threads; their relative progress is not scheduled (bodies are long enough to overlap). One project shape, <= 3 workers.",
+    engine="E5-schedule")
 add("C36", "exploration",
     "exhaustive enumeration of 4-state values x widths through the real Value<->svLogicVecVal conversions against the Annex H table; all input sequences to depth 3/4 on 20 designs x engines with every VCD sample compared with the simulator's own value",
     "Vec<SvLogicVecVal>::from(&Value) and Value::from(&[SvLogicVecVal]) for all 4-state values x signed flag at widths 1..7 (quick) / 1..9 (thorough), corner alphabets and walking 0/1/x/z at every bit position for widths {31..129} straddling the 32-bit word boundaries, word vectors of 1..5 words: Annex H encoding bit by bit, padding bits, word count, round trip; the cosim_set/cosim_get bodies around a real simulator at 12 widths x 4 engines. Dumps: 20 designs (counters, 65/129/200-bit registers, arrays, struct/enum, hierarchy, 4-state, tri-state) on every engine, all input sequences over a 5-/6-letter alphabet to depth 3/4, driven exactly like testbench.rs, dumped with the real WaveDumper, parsed with the vcd crate: header, times and every variable at every time equal Simulator::get_var right after that dump.",
